@@ -128,6 +128,11 @@ class Report:
                 except Exception as e:  # a broken search must not hide the refutation
                     found = None
                     self.extra.setdefault("search_errors", []).append(f"{fn}: {e!r}")
+            if not found:
+                # enumeration obligations (kind E) are decided by running the real code: their witness is a native failing input
+                ew = [o for o in obs if o.kind == "E" and o.model]
+                if ew:
+                    found = {"input": ew[0].model, "note": "witness of an exhaustive-enumeration obligation (evaluated on the real code)"}
             names = [o.id for o in obs]
             v = Violation(key=names[0], what=f"{fn}: obligation(s) refuted: {', '.join(names[:6])}"
                           + (f" (+{len(names) - 6} more)" if len(names) > 6 else "")
